@@ -220,17 +220,17 @@ theorem evalV_fieldValue (P : Prims) (env : Env) (n : Name) (w : Val) (o : Field
             | cons _ _ => simp [hops] at hder
           | _ => simp [hops] at hder
 
-theorem evalCore_wildBase (P : Prims) (env : Env) (ve : VExpr) (f : FieldName) :
-    evalCore P env (wildBase ve f) =
+theorem evalCore_wildBase (P : Prims) (env : Env) (ve : VExpr) (rsp : Sp) (f : FieldName) :
+    evalCore P env (wildBase ve rsp f) =
       (evalV P env ve).bind fun x => (x.v.field f).map fun u => ⟨u, 0⟩ := by
   cases f <;> simp [wildBase, evalCore, evalV]
 
 /-- **Fields of a wildcard struct** are reached by field access on the value expression. -/
-theorem evalV_wildField (P : Prims) (env : Env) (ve : VExpr) (f : FieldName) (o : FieldOps)
+theorem evalV_wildField (P : Prims) (env : Env) (ve : VExpr) (rsp : Sp) (f : FieldName) (o : FieldOps)
     (hroot : o.rootFieldName? = some f) (hnd : o.noDeref = true) :
     (evalV P env (match o.tailOps? with
-        | some (some tl) => applyOps (VExpr.ofCore (wildBase ve f)) tl
-        | _ => ⟨[Pre.amp Sp.callSite], wildBase ve f⟩)).map (·.v) =
+        | some (some tl) => applyOps (VExpr.ofCore (wildBase ve rsp f)) tl
+        | _ => ⟨[Pre.amp Sp.callSite], wildBase ve rsp f⟩)).map (·.v) =
       (evalV P env ve).bind fun x => fieldSub P x.v o := by
   unfold FieldOps.noDeref at hnd
   unfold fieldSub
@@ -239,8 +239,8 @@ theorem evalV_wildField (P : Prims) (env : Env) (ve : VExpr) (f : FieldName) (o 
   | some t =>
     cases t with
     | none =>
-      have h1 : evalV P env ⟨[Pre.amp Sp.callSite], wildBase ve f⟩ =
-          (evalCore P env (wildBase ve f)).bind (applyPres [Pre.amp Sp.callSite]) := rfl
+      have h1 : evalV P env ⟨[Pre.amp Sp.callSite], wildBase ve rsp f⟩ =
+          (evalCore P env (wildBase ve rsp f)).bind (applyPres [Pre.amp Sp.callSite]) := rfl
       simp only [h1, evalCore_wildBase, hroot]
       cases hv : evalV P env ve with
       | none => simp
